@@ -202,18 +202,21 @@ impl Iterator for RangeIterator {
         if self.done || self.range.is_empty() {
             return (0, Some(0));
         }
-        let remaining = if self.range.step > 0 {
-            if self.current > self.range.last {
-                0
-            } else {
-                (((self.range.last - self.current) / self.range.step) + 1) as usize
-            }
-        } else if self.current < self.range.last {
-            0
+        let past_last = if self.range.step > 0 {
+            self.current > self.range.last
         } else {
-            (((self.current - self.range.last) / (-self.range.step)) + 1) as usize
+            self.current < self.range.last
         };
-        (remaining, Some(remaining))
+        if past_last {
+            return (0, Some(0));
+        }
+        // Total arithmetic, as in `ElixirRange::len`. When the count does not fit `usize`
+        // the upper bound is unknown, as for `RangeInclusive<i64>`.
+        let steps = self.range.last.abs_diff(self.current) / self.range.step.unsigned_abs();
+        match usize::try_from(steps).ok().and_then(|n| n.checked_add(1)) {
+            Some(remaining) => (remaining, Some(remaining)),
+            None => (usize::MAX, None),
+        }
     }
 }
 
